@@ -37,9 +37,13 @@ def template(F):
             F.assume(T(vals[i]) != T(vals[j]))
     i = ids
     stop = F.new(StopLine, np.array([0.0, 6.0]), np.array([0.0, 7.0]), LineMarking.SOLID, F.set([i["S1"]]), F.set([i["T1"]]))
+    # stop lines with only a light reference / only a sign reference (the other one None, as the readers produce them)
+    stop_light_only = F.new(StopLine, np.array([0.0, 0.0]), np.array([0.0, 1.0]), LineMarking.SOLID, None, F.set([i["T2"]]))
+    stop_sign_only = F.new(StopLine, np.array([0.0, 2.0]), np.array([0.0, 3.0]), LineMarking.SOLID, F.set([i["S2"]]), None)
     la = {
-        "L1": lanelet(F, i["L1"], 0.0, successor=[i["L2"]], traffic_signs=F.set([i["S1"]]), traffic_lights=F.set([i["T2"]]), lanelet_type={LaneletType.URBAN}),
-        "L2": lanelet(F, i["L2"], 2.0, predecessor=[i["L1"]], adjacent_left=i["L3"], adjacent_left_same_direction=True,
+        "L1": lanelet(F, i["L1"], 0.0, successor=[i["L2"]], stop_line=stop_light_only, traffic_signs=F.set([i["S1"]]), traffic_lights=F.set([i["T2"]]),
+                      lanelet_type={LaneletType.URBAN}),
+        "L2": lanelet(F, i["L2"], 2.0, predecessor=[i["L1"]], adjacent_left=i["L3"], adjacent_left_same_direction=True, stop_line=stop_sign_only,
                       traffic_signs=F.set([i["S2"]]), traffic_lights=F.set([i["T2"]]), lanelet_type={LaneletType.URBAN}),
         "L3": lanelet(F, i["L3"], 4.0, adjacent_right=i["L2"], adjacent_right_same_direction=True, predecessor=[i["L1"], i["L4"]],
                       lanelet_type={LaneletType.BUS_LANE}),
